@@ -117,7 +117,7 @@ def next_section(name="", report=MAIN_REPORT):
     else:
         # The whole file stays in place: no section offset applies to it
         report.submission.clear_line_offsets()
-        not_enough_sections(section_number, found)
+        not_enough_sections(section_number, found, report=report)
     report.execute_hooks(TOOL_NAME, 'next_section.after')
 
 
